@@ -29,7 +29,8 @@ TRUSTED = [
     "consumed from the script), not modelled: the model receives the draws explicitly",
 ]
 ASSUMPTIONS = [
-    "capacities are None or integers >= 1 (the property's quantifier); cells are only reached through the space they belong to",
+    "capacities are None or integers >= 0 (0: a cell that takes nobody, repair SC3; the property's quantifier lists None, 1, k >= 1); float "
+    "capacities (Grid accepts them: 2.5 holds 3 agents and is never `is_full`) are not modelled; cells are only reached through the space they belong to",
     "Cell.connect / Cell.disconnect are called on cells of the space they belong to (connections never lead out of the space)",
 ]
 RULE = ("random histories on random spaces: Moore/von Neumann grids with 1-3 axes of size 1-4(6), hex grids, Network on random "
